@@ -67,6 +67,7 @@ class Unit:
         self.extract_failed = {}  # fn -> message: body could not be extracted; emitted as assumed stub
         self.hints_lost = {}  # fn -> [messages]: proof scaffolding whose anchor no longer exists
         self.probes = []      # reachability probes of the probe run (vacuity="probe")
+        self.pins = []        # hashes of the text replaced by wildcard edits
         self.template = None
 
     def text(self):
@@ -749,6 +750,19 @@ def _emit_fn(unit, repo, rel, scope, name, opts, flags, contract, directives, va
     for (dk, dopts, pat, rep, tline) in directives:
         if dk in ("OUTLINE", "HAVOC", "CLOSURE", "REPLACE", "ITERNAME"):
             hits, n = locate(dk, dopts, pat, tline)
+            # PIN: a pattern with `$$` wildcards matches ANY text in the wildcard positions, so the replaced text —
+            # whose behaviour the replacement's assumed contract describes — is pinned by a hash of its tokens.  If the
+            # code under the wildcard changes, the assumption has to be re-reviewed: the function becomes undecided.
+            nw = pat.count("$$")
+            carried = all(("$$%d" % k) in rep for k in range(1, nw + 1))   # every wildcard's text is carried into the replacement
+            if hits and nw and not carried:
+                orig = " ".join(" ".join(x.text for x in toks[h:per_end.get(h, h + n)] if x.kind not in ("comment", "ws")) for h in hits)
+                pin = hashlib.sha256(orig.encode()).hexdigest()[:12]
+                want = dict(o.split("=", 1) for o in dopts if "=" in o).get("pin")
+                unit.pins.append({"fn": qual, "tline": tline, "template": os.path.basename(template_path), "pin": pin, "declared": want})
+                if want and want != pin:
+                    raise GenError("anchor lost in %s (%s line %d): the text replaced by this declared edit changed (pin %s, now %s): "
+                                   "its assumed contract must be reviewed again" % (qual, os.path.basename(template_path), tline, want, pin))
             for h in hits or []:
                 rep_h = _subst(rep, per_hit.get(h, binds))
                 replace[h] = (per_end.get(h, h + n), rep_h, dk.lower(), tline)
